@@ -20,6 +20,7 @@ func init() {
 			"which lunar date a day maps to is decided by C02/C06; C01 judges self-consistency (bijection, order, path independence)",
 		},
 		Gen: c01Gen, Run: c01Run,
+		BlockKind: "year", BlockQuick: [2]int{6, 6}, BlockThorough: [2]int{0, 25},
 		Exhaustive: func(tier string) bool { return tier == "thorough" },
 		MinEvals:   map[string]int64{"quick": 300000, "thorough": 10000000},
 		Chunks:     128,
